@@ -12,6 +12,7 @@ void wide_section(vf::Run& r) {
   (wide_order<Ts>(r), ...);
   r.bound = vf::fmt("Vector2/3/4<T> for T in {%s} over boundary component alphabets (type limits, 2^(w/2)+-1, +-2^31(+1), +-2^52(+1), +-0.0, +-inf, 2^53, 1e308, denormal): "
                     "Vector2 all ordered pairs over the full alphabet (11-17 values), Vector3 over its first %d, Vector4 over its first %d values, every vector x every scalar of the full alphabet; "
+                    "aliased-operand forms on every one of those vectors (v op= v.<component> and v = v op v.<component> for op in + - * / %%, every component by each of its names and through at(i); v = v + v, v = v - v, v = -v; results assigned over either operand); "
                     "operations undefined in C++ on the operands (signed overflow, /0, MIN/-1) neither executed nor compared; "
                     "operator< strict-weak-order laws on all triples (no NaN): Vector2 over the first 6 alphabet values (46656 triples), Vector3 over the first 3 (19683), Vector4 over the first 2 (4096)",
       types.c_str(), r.thorough() ? 7 : 5, r.thorough() ? 5 : 4);
